@@ -127,3 +127,8 @@ def replay_bool_init(payload):
 for _c in C.CONTRACTS["cohdl._core._boolean:_Boolean.__init__"].cases:
     if _c.name in ("literal:2", "literal:-1"):
         _c.custom_replay = "contracts.c05_castsetter.replay_bool_init"
+
+
+# C13 ("views ... alias the same storage and keep the same root"): assigning a cast property (`obj.unsigned = ...`) is only the
+# tail of an augmented assignment to that very view -- anything else would be silently dropped
+contract("cohdl._core._type_qualifier:TypeQualifier._check_cast_setter", ("C13",))
